@@ -76,6 +76,9 @@ TICK_FLOWS = {
     "t_sort_enumerate_fold": F(["n"], "agg", props=("C30",)),
     "t_cycle": F(["n"], "ord", props=("C30",)),
 }
+# flows with inputs typed NoOrder (index list): the driver may present them in any order
+TICK_FLOWS["t_join_half_unord"] = F(["kv", "kv"], "ord", props=("C29",))
+TICK_FLOWS["t_join_half_unord"]["unordered"] = [1]
 FLOWS.update(TICK_FLOWS)
 
 # structural tokens of the surface syntax that are not operators of the emission table
@@ -277,6 +280,38 @@ def gen_interleave_cases(rng, tier, flows):
                     c["group"] = "%s/%d" % (flow, rep)
                     cases.append(c)
     return cases
+
+
+def canonical_ticks(case):
+    """the case's batches with every NoOrder input sorted (its canonical arrival order)"""
+    un = [INPUT_NAMES[i] for i in FLOWS[case["flow"]].get("unordered", [])]
+    return [{n: (sorted(v) if n in un else v) for n, v in t.items()} for t in case["ticks"]]
+
+
+def gen_unordered_cases(rng, tier, flow):
+    """every arrival order (permutation) of the NoOrder input's batch, <= 4 items, few keys so that
+    one left item has several matches; one and two ticks"""
+    cases = []
+    reps = 6 if tier == "thorough" else 2
+    for _ in range(reps):
+        a = [[rng.below(2), rng.below(6)] for _ in range(rng.range(1, 3))]
+        b = [[rng.below(2), rng.below(6)] for _ in range(rng.range(2, 4))]
+        for perm in sorted(set(itertools.permutations([tuple(x) for x in b]))):
+            pb = [list(x) for x in perm]
+            cases.append({"flow": flow, "ticks": [{"a": a, "b": pb}], "src": "perm"})
+            cases.append({"flow": flow, "ticks": [{"a": a[:1], "b": pb[:2]}, {"a": a[1:], "b": pb[2:]}], "src": "perm"})
+    return cases
+
+
+def corpus_cases(prop):
+    """minimised past disagreements / finding witnesses, run first"""
+    import glob
+    import json
+    out = []
+    for f in sorted(glob.glob(os.path.join(vlib.ROOT, "corpus", prop, "*.json"))):
+        c = json.load(open(f))
+        out += c if isinstance(c, list) else [c]
+    return out
 
 
 def emit_cases(flows):
